@@ -48,7 +48,7 @@ DecScales == {B(0), B(1), B(-1), B(2), BSub(P(31), One), BNeg(P(31))}
 DecUnscaled == {B(0), B(1), B(-1), B(127), B(128), B(-128), B(-129), P(63), BSub(P(64), One), BNeg(P(64)), P(127), B(1000000007)}
 DayMs == 86400000
 \* instants (ms since the epoch) around midnight boundaries on both sides of 1970
-InstantAlphabet == {B(0), B(1), B(-1), B(999), B(-999), B(-1000), B(43200000), B(-43200000), B(86399999), B(86400000), B(-86399999), B(-86400000), B(-86400001),
+InstantAlphabet == {B(10800000), B(-10800000), B(75600000), B(-75600000), B(0), B(1), B(-1), B(999), B(-999), B(-1000), B(43200000), B(-43200000), B(86399999), B(86400000), B(-86399999), B(-86400000), B(-86400001),
                     BMulSmall(BMulSmall(B(11016), 86400), 1000), BMulSmall(BMulSmall(B(-719161), 86400), 1000), BAdd(BMulSmall(BMulSmall(B(-141428), 86400), 1000), B(1)),
                     P(40), BNeg(P(40)), BSub(BNeg(P(40)), One), BSub(P(53), One), BNeg(P(53))}
 MsOfDays(d) == BMulSmall(BMulSmall(d, 86400), 1000)
@@ -73,12 +73,12 @@ DecCases == {Case("decimal", NT("decimal"), ScalarP, KK("dec"), VDec(s, u)) : s 
 TimeCases == {Case("time", NT("time"), ScalarP, KK(g), VInt(x)) : g \in {"int64", "nint64", "gdur"}, x \in NsAlphabet}
 TimestampCases ==
   {Case("timestamp", NT("timestamp"), ScalarP, KK(g), VInt(x)) : g \in {"int64", "nint64"}, x \in InstantAlphabet \cup {BSub(P(63), One), BNeg(P(63))}}
-  \cup {Case("timestamp", NT("timestamp"), ScalarP, KK("time"), VInt(x)) : x \in InstantAlphabet}
-  \cup {Case("timestamp", NT("timestamp"), ScalarP, KK("time"), VEmpty)}
+  \cup {Case("timestamp", NT("timestamp"), ScalarP, KK(g), VInt(x)) : g \in {"time"} \cup ZoneTimeKinds, x \in InstantAlphabet}
+  \cup {Case("timestamp", NT("timestamp"), ScalarP, KK(g), VEmpty) : g \in {"time"} \cup ZoneTimeKinds}
 DateCases ==
-  {Case("date", NT("date"), ScalarP, KK(g), VInt(x)) : g \in {"int64", "time"}, x \in InstantAlphabet \cup DateExtremesMs}
+  {Case("date", NT("date"), ScalarP, KK(g), VInt(x)) : g \in {"int64", "time"} \cup ZoneTimeKinds, x \in InstantAlphabet \cup DateExtremesMs}
   \cup {Case("date", NT("date"), ScalarP, KK("string"), VInt(d)) : d \in DayAlphabet}
-  \cup {Case("date", NT("date"), ScalarP, KK("time"), VEmpty), Case("date", NT("date"), ScalarP, KK("string"), VEmpty)}
+  \cup {Case("date", NT("date"), ScalarP, KK(g), VEmpty) : g \in {"time", "string"} \cup ZoneTimeKinds}
 DurationCases ==
   {Case("duration", NT("duration"), ScalarP, KK(g), VInt(x)) : g \in {"int64", "nint64", "gdur"}, x \in VintEdges}
   \cup {Case("duration", NT("duration"), ScalarP, KK("string"), VInt(x)) : x \in VintEdges \ {BNeg(P(63))}}
@@ -106,7 +106,8 @@ PtrCases ==
   \cup {Case("ptr", NT("tinyint"), ScalarP, KPtr(KK("uint8")), VI(200)), Case("ptr", NT("bigint"), ScalarP, KPtr(KK("bigint")), VI(5)),
         Case("ptr", NT("varint"), ScalarP, KPtr(KK("bigint")), VInt(P(64))), Case("ptr", NT("text"), ScalarP, KPtr(KK("string")), Txt(<<>>)),
         Case("ptr", NT("blob"), ScalarP, KPtr(KK("bytes")), Txt(<<>>)), Case("ptr", NT("timestamp"), ScalarP, KPtr(KK("time")), VI(-1)),
-        Case("ptr", NT("date"), ScalarP, KPtr(KK("time")), VI(-43200000)), Case("ptr", NT("date"), ScalarP, KPtr(KK("time")), VI(43200000)),
+        Case("ptr", NT("date"), ScalarP, KPtr(KK("time")), VI(-43200000)), Case("ptr", NT("date"), ScalarP, KPtr(KK("time_p9")), VI(75600000)),
+        Case("ptr", NT("date"), ScalarP, KPtr(KK("time_m5")), VI(-75600000)), Case("ptr", NT("timestamp"), ScalarP, KPtr(KK("time_m5")), VI(10800000)), Case("ptr", NT("date"), ScalarP, KPtr(KK("time")), VI(43200000)),
         Case("ptr", NT("duration"), ScalarP, KPtr(KK("cdur")), VDur(B(1), B(2), B(3))), Case("ptr", NT("decimal"), ScalarP, KPtr(KK("dec")), VDec(B(2), B(-129))),
         Case("ptr", NT("boolean"), ScalarP, KPtr(KK("bool")), VBool(FALSE)), Case("ptr", NT("double"), ScalarP, KPtr(KK("float64")), VBytes(<<128, 0, 0, 0, 0, 0, 0, 0>>)),
         Case("ptr", NT("inet"), ScalarP, KPtr(KK("ip")), VBytes(<<127, 0, 0, 1>>)), Case("ptr", NT("uuid"), ScalarP, KPtr(KK("uuid")), VBytes(Zeros(16)))}
@@ -115,6 +116,7 @@ ScalarV2 == {Case("v2", NT("int"), 2, KK("int32"), VI(-2)), Case("v2", NT("varin
              Case("v2", NT("timestamp"), 2, KK("time"), VI(-1)), Case("v2", NT("bigint"), 1, KK("int64"), VI(-1)), Case("v2", NT("date"), 5, KK("string"), VI(0)),
              Case("v2", NT("smallint"), 3, KK("int16"), VI(-32768))}
 
+Pat(k) == [j \in 1 .. k |-> (j - 1) % 251]
 \* ------------------------------------------------------------ nested families
 I(n) == VI(n)
 L(es) == VList(es)
@@ -156,6 +158,9 @@ NestedBoth == {
   <<TList(NT("decimal")), KSlice(KK("dec")), L(<<VDec(B(2), B(-129)), VDec(B(0), B(0))>>)>>,
   <<TList(NT("duration")), KSlice(KK("cdur")), L(<<VDur(B(1), B(2), B(3)), VDur(B(0), B(0), B(64))>>)>>,
   <<TList(NT("time")), KSlice(KK("gdur")), L(<<I(0), I(1)>>)>>, <<TList(NT("smallint")), KSlice(KK("uint16")), L(<<I(32767)>>)>>,
+  \* elements / keys / values of 32768 bytes: the [short] length of protocol <= 2 is unsigned
+  <<TList(NT("blob")), KSlice(KK("bytes")), L(<<S(Pat(32768)), S(<<1>>)>>)>>, <<TSet(TText), KSlice(str), L(<<S(Pat(40000))>>)>>,
+  <<TMap(TText, NT("blob")), KMap(str, KK("bytes")), VMap(<<KV(S(Pat(32768)), S(Pat(32769)))>>)>>,
   \* known-defect leaves inside collections (DESIGN section 9)
   <<TList(NT("bigint")), KSlice(KK("bigint")), L(<<I(5)>>)>>, <<TList(NT("date")), KSlice(KK("time")), L(<<I(-43200000)>>)>>,
   <<TMap(TText, NT("duration")), KMap(str, KK("nint64")), VMap(<<KV(S(<<97>>), I(5))>>)>>, <<TSet(NT("tinyint")), KSlice(KK("uint8")), L(<<I(200)>>)>>
@@ -194,6 +199,15 @@ NestedV3 == {
   <<TUdt(<<TMap(TText, TInt), TList(TText), TInt>>), KStruct(<<KMap(str, i32), KSlice(str), KPtr(i32)>>), Tu(<<VMap(<<KV(S(<<99>>), I(3))>>), L(<<S(<<122>>)>>), I(7)>>)>>,
   <<TUdt(<<TMap(TText, TInt), TList(TText), TInt>>), KStruct(<<KMap(str, i32), KSlice(str), KPtr(i32)>>), Tu(<<VMap(<<>>), L(<<>>), VNull>>)>>,
   <<TUdt(<<TMap(TText, TInt), TList(TText), TInt>>), KUdtMap(<<KMap(str, i32), KSlice(str), KPtr(i32)>>), Tu(<<VMap(<<KV(S(<<97>>), I(1)), KV(S(<<98>>), I(2))>>), L(<<S(<<>>)>>), VNull>>)>>,
+  \* three-field UDTs with distinguishable fields (a decoder that loses its place shows), alone and nested
+  <<TUdt(<<TInt, TText, NT("bigint")>>), KStruct(<<i32, str, KK("int64")>>), Tu(<<I(11), S(<<98, 98>>), I(33)>>)>>,
+  <<TUdt(<<TInt, TInt, TInt>>), KStruct(<<i32, i32, i32>>), Tu(<<I(1), I(2), I(3)>>)>>,
+  <<TUdt(<<TText, TInt, TText>>), KStruct(<<KPtr(str), KPtr(i32), KPtr(str)>>), Tu(<<VNull, I(2), S(<<99>>)>>)>>,
+  <<TList(TUdt(<<TInt, TInt, TText>>)), KSlice(KStruct(<<i32, i32, str>>)), L(<<Tu(<<I(1), I(2), S(<<97>>)>>), Tu(<<I(4), I(5), S(<<>>)>>)>>)>>,
+  <<TMap(TText, TUdt(<<TInt, TText>>)), KMap(str, KStruct(<<i32, str>>)), VMap(<<KV(S(<<107>>), Tu(<<I(7), S(<<118>>)>>))>>)>>,
+  <<TSet(TUdt(<<TInt, TInt>>)), KSlice(KStruct(<<i32, i32>>)), L(<<Tu(<<I(1), I(2)>>)>>)>>,
+  <<TTuple(<<TUdt(<<TInt, TText>>), TInt>>), KIfaces(<<KStruct(<<i32, str>>), i32>>), Tu(<<Tu(<<I(1), S(<<97>>)>>), I(9)>>)>>,
+  <<TUdt(<<TUdt(<<TInt, TText>>), TInt>>), KStruct(<<KStruct(<<i32, str>>), i32>>), Tu(<<Tu(<<I(1), S(<<97>>)>>), I(9)>>)>>,
   \* known-defect leaves inside tuples
   <<TTuple(<<NT("bigint"), TInt>>), KIfaces(<<KK("bigint"), i32>>), Tu(<<I(5), I(1)>>)>>
 }
@@ -214,7 +228,7 @@ LeafsQuick == {
   <<NT("boolean"), KK("bool"), VBool(FALSE)>>, <<NT("float"), KK("float32"), VBytes(<<127, 192, 0, 1>>)>>, <<NT("double"), KK("float64"), VBytes(<<128, 0, 0, 0, 0, 0, 0, 0>>)>>,
   <<NT("decimal"), KK("dec"), VDec(B(-1), B(-129))>>, <<NT("time"), KK("gdur"), I(1)>>, <<NT("time"), KK("int64"), I(0)>>,
   <<NT("timestamp"), KK("time"), I(-1)>>, <<NT("timestamp"), KK("time"), VEmpty>>, <<NT("timestamp"), KK("int64"), I(-1000)>>,
-  <<NT("date"), KK("time"), I(43200000)>>, <<NT("date"), str, I(-1)>>, <<NT("date"), KK("int64"), I(86400000)>>, <<NT("date"), str, VEmpty>>,
+  <<NT("date"), KK("time"), I(43200000)>>, <<NT("date"), KK("time_p9"), I(75600000)>>, <<NT("date"), KK("time_m5"), I(-75600000)>>, <<NT("timestamp"), KK("time_p9"), I(-1)>>, <<NT("date"), str, I(-1)>>, <<NT("date"), KK("int64"), I(86400000)>>, <<NT("date"), str, VEmpty>>,
   <<NT("duration"), KK("cdur"), VDur(B(-1), B(64), B(8192))>>, <<NT("duration"), KK("gdur"), I(64)>>,
   <<NT("uuid"), KK("uuid"), VBytes(Zeros(16))>>, <<NT("uuid"), str, VBytes([i \in 1 .. 16 |-> 255])>>, <<NT("timeuuid"), KK("arr16"), VBytes(<<254, 220, 186, 152, 118, 84, 17, 50, 128, 1, 2, 3, 4, 5, 6, 7>>)>>,
   <<NT("inet"), KK("ip"), VBytes(<<127, 0, 0, 1>>)>>, <<NT("inet"), KK("ip"), VBytes(Zeros(15) \o <<1>>)>>, <<NT("inet"), str, VBytes(<<10, 1, 2, 3>>)>>
@@ -276,27 +290,39 @@ ValidK(K) ==
   IF g \in {"ptr", "slice", "array"} THEN ValidK(K.e)
   ELSE IF g = "setmap" THEN K.e.g \notin {"bytes", "bigint", "ip", "dec", "slice", "map", "setmap", "ifaces", "udtmap"} /\ ValidK(K.e)
   ELSE IF g = "map" THEN K.kk.g \notin {"bytes", "bigint", "ip", "dec", "slice", "map", "setmap", "ifaces", "udtmap"} /\ ValidK(K.kk) /\ ValidK(K.vk)
-  ELSE IF g \in {"struct", "ifaces", "udtmap"} THEN \A i \in 1 .. Len(K.es) : ValidK(K.es[i])
+  ELSE IF g \in {"struct", "ifaces", "udtmap", "pstruct"} THEN \A i \in 1 .. Len(K.es) : ValidK(K.es[i])
   ELSE TRUE
 RECURSIVE TK(_, _)
 TK(T, mode) ==
   LET t == T.t IN
   IF t \in {"list", "set"} THEN KSlice(TK(T.e, mode))
   ELSE IF t = "map" THEN KMap(IF T.kt.t \in ScalarTypes THEN KK(KeyKind(T.kt.t)) ELSE TK(T.kt, 1), TK(T.vt, mode))
-  ELSE IF t = "udt" THEN KStruct([i \in 1 .. Len(T.es) |-> TK(T.es[i], mode)])
+  ELSE IF t = "udt" THEN
+       \* mode 3: a struct that lacks the FIRST field of the UDT (matched by field name), wherever a UDT is nested
+       (IF mode = 3 /\ Len(T.es) >= 2
+        THEN KPStruct([j \in 1 .. Len(T.es) - 1 |-> TK(T.es[j + 1], 1)], [j \in 1 .. Len(T.es) - 1 |-> j + 1], TRUE)
+        ELSE KStruct([i \in 1 .. Len(T.es) |-> TK(T.es[i], mode)]))
   ELSE IF t = "tuple" THEN
-       (IF TupleNatural(T) THEN KStruct([i \in 1 .. Len(T.es) |-> IF mode = 1 THEN TKn(T.es[i]) ELSE KPtr(TKn(T.es[i]))])
+       (IF TupleNatural(T) THEN KStruct([i \in 1 .. Len(T.es) |-> IF mode = 2 THEN KPtr(TKn(T.es[i])) ELSE TKn(T.es[i])])
         ELSE KIfaces([i \in 1 .. Len(T.es) |-> TK(T.es[i], mode)]))
-  ELSE IF mode = 1 THEN KK(NatKind(t)) ELSE KPtr(KK(NatKind(t)))
+  ELSE IF mode = 2 THEN KPtr(KK(NatKind(t))) ELSE KK(NatKind(t))
+\* every non-empty subset of 1..n in every order
+SubPerms(n) == UNION {{f \in [1 .. k -> 1 .. n] : \A i, j \in 1 .. k : i # j => f[i] # f[j]} : k \in 1 .. n}
+\* struct targets declaring any subset of the UDT's fields in any order, matched by cql tag / by field name
+PartialStructs(T) ==
+  IF Len(T.es) > 3 THEN {}
+  ELSE {KPStruct([j \in 1 .. Len(f) |-> TK(T.es[f[j]], 1)], f, FALSE) : f \in SubPerms(Len(T.es))}
+       \cup {KPStruct([j \in 1 .. Len(f) |-> TK(T.es[f[j]], 2)], f, TRUE) : f \in SubPerms(Len(T.es))}
 ScalarKinds(t) == {g \in IntKinds \cup NamedUsed \cup {"bigint", "string", "bytes", "bool", "float32", "float64", "dec", "gdur", "time", "uuid", "arr16", "ip", "cdur"} : Target(t, g)}
 Cand(T, cv) ==
   LET t == T.t IN
   IF t \in {"list", "set"} THEN
-       {TK(T, 1), TK(T, 2), KPtr(TK(T, 1))} \cup (IF cv.k = "list" THEN {KArray(TK(T.e, 1), Len(cv.es))} ELSE {})
-  ELSE IF t = "map" THEN {TK(T, 1), TK(T, 2), KPtr(TK(T, 1))}
-  ELSE IF t = "udt" THEN {TK(T, 1), TK(T, 2)}
+       {TK(T, 1), TK(T, 2), TK(T, 3), KPtr(TK(T, 1))} \cup (IF cv.k = "list" THEN {KArray(TK(T.e, 1), Len(cv.es))} ELSE {})
+  ELSE IF t = "map" THEN {TK(T, 1), TK(T, 2), TK(T, 3), KPtr(TK(T, 1))}
+  ELSE IF t = "udt" THEN {TK(T, 1), TK(T, 2), TK(T, 3), KPtr(TK(T, 3)), KStruct([i \in 1 .. Len(T.es) |-> TK(T.es[i], 3)])} \cup PartialStructs(T)
   ELSE IF t = "tuple" THEN
-       {TK(T, 1), TK(T, 2), KIfaces([i \in 1 .. Len(T.es) |-> TK(T.es[i], 1)]), KIfaces([i \in 1 .. Len(T.es) |-> TK(T.es[i], 2)])}
+       {TK(T, 1), TK(T, 2), TK(T, 3), KIfaces([i \in 1 .. Len(T.es) |-> TK(T.es[i], 1)]), KIfaces([i \in 1 .. Len(T.es) |-> TK(T.es[i], 2)]),
+        KIfaces([i \in 1 .. Len(T.es) |-> TK(T.es[i], 3)])}
        \cup (IF TupleNatural(T) /\ \A i \in 1 .. Len(T.es) : T.es[i] = T.es[1]
             THEN {KSlice(TKn(T.es[1])), KSlice(KPtr(TKn(T.es[1]))), KArray(TKn(T.es[1]), Len(T.es))} ELSE {})
   ELSE {KK(g) : g \in ScalarKinds(t)} \cup {KPtr(KK(NatKind(t)))} \cup (IF t \in IntColTypes THEN {KPtr(KK("int64")), KPtr(KK("bigint")), KPtr(KK("string"))} ELSE {})
@@ -334,11 +360,10 @@ Expect(i) ==
 BigForms == {"list-elem", "set-elem", "map-key", "map-val", "list-count", "set-count", "map-count"}
 BigSet ==
   {[form |-> f, p |-> p, size |-> s, count |-> IF f = "list-elem" THEN 2 ELSE 1] :
-     f \in {"list-elem", "set-elem", "map-key", "map-val"}, p \in ProtosShort \cup ProtosInt, s \in {65535, 65536, 70000}}
+     f \in {"list-elem", "set-elem", "map-key", "map-val"}, p \in ProtosShort \cup ProtosInt, s \in {32767, 32768, 40000, 65535, 65536, 70000}}
   \cup {[form |-> f, p |-> p, size |-> IF f = "list-count" THEN 1 ELSE 4, count |-> n] :
-     f \in {"list-count", "set-count", "map-count"}, p \in ProtosShort \cup ProtosInt, n \in {65535, 65536}}
+     f \in {"list-count", "set-count", "map-count"}, p \in ProtosShort \cup ProtosInt, n \in {32767, 32768, 65535, 65536}}
 Bigs == SetToSeq(BigSet)
-Pat(k) == [j \in 1 .. k |-> (j - 1) % 251]
 BigExpect(i) ==
   LET d == Bigs[i]
       p == d.p
